@@ -492,6 +492,12 @@ CONSTRUCTS = [
     ("keyword-call", "(:{n} zq_d)", "log:item"),
     ("match-class-keyword", "(match zq_obj (zq_Rec :{n} 1) 0)", "log:get"),
     ("macro-name", "(defmacro {n} [] 7)", "macros"),
+    # definitions inside a let that binds the same name: the definition takes the name over (ScopeLet.define)
+    ("import-from-inside-let", "(let [{n} 11] (import zq_mod [{n}]) (setv zq_r {n}))", "result-imported"),
+    ("import-from-as-inside-let", "(let [{n} 11] (import zq_mod [zq_x :as {n}]) (setv zq_r {n}))", "result-imported:zq_x"),
+    ("import-as-inside-let", "(let [{n} 11] (import zq_mod :as {n}) (setv zq_r (. {n} __name__)))", "result-value:zq_mod"),
+    ("defn-inside-let", "(let [{n} 11] (defn {n} [] 5) (setv zq_r ((do {n}))))", "result-value:5"),
+    ("defclass-inside-let", "(let [{n} 11] (defclass {n} [] (setv zq_v 5)) (setv zq_r (. (do {n}) zq_v)))", "result-value:5"),
 ]
 
 PAIRS = [
@@ -557,7 +563,7 @@ def run_constructs(chk, env, names):
                     chk.count("filtered:not-readable-as-dotted-part")
                     continue
             dunder = m.startswith("__") and m.endswith("__")
-            if dunder and (obs.startswith("log:") or "import" in cid):
+            if dunder and (obs.startswith("log:") or "import" in cid or "inside-let" in cid):
                 chk.count("filtered:dunder-name-on-recording-object")
                 continue
             if cid == "import-submodule" and not readable_dotted(hy, "zq_pkg." + nm, nm):
@@ -603,6 +609,14 @@ def run_constructs(chk, env, names):
                 got = [t.__name__ for t in mod.zq_g.__type_params__]
                 if got != [m]:
                     bad(got, [m])
+            elif obs.startswith("result-imported"):
+                want = ("imported", obs.split(":")[1] if ":" in obs else m)
+                if mod.__dict__.get("zq_r") != want:
+                    bad(mod.__dict__.get("zq_r", "<unbound>"), want)
+            elif obs.startswith("result-value:"):
+                want = obs.split(":", 1)[1]
+                if str(mod.__dict__.get("zq_r", "<unbound>")) != want:
+                    bad(mod.__dict__.get("zq_r", "<unbound>"), want)
             elif obs == "result-list":
                 if mod.__dict__.get("zq_r") != [m]:
                     bad(mod.__dict__.get("zq_r"), [m])
